@@ -289,6 +289,10 @@ func checkC13(c *Ctx) {
 			continue
 		}
 		ex := c.Explore(ri.Fn, level, maxRuns)
+		if ri.Pkg == pkgTSServer || ri.Pkg == pkgTSClient {
+			// the route emitters decide in helpers which of `url`, `pathParams`, `body` a block declares: follow them
+			ex = c.ExploreDeep(ri.Fn, level, 40000)
+		}
 		for _, p := range ex.Problems {
 			r.Unres("R13h", pkgShort(ri.Pkg)+" *"+ri.Suffix+" emission model", "", p)
 		}
@@ -494,6 +498,10 @@ func clientHeaderHelpersUnique(c *Ctx, rid string) {
 		{"a method re-declares a service header", []string{"X-Api-Key"}, []string{"X-Api-Key"}, nil},
 		{"two methods declare the same header", nil, []string{"Idempotency-Key"}, []string{"Idempotency-Key"}},
 		{"two methods declare the same header, the service another", []string{"X-Api-Key"}, []string{"X-Request-ID"}, []string{"X-Request-ID"}},
+		{"two different header names that give one Go identifier (service and method)", []string{"X-Request-ID"}, []string{"Request-ID"}, nil},
+		{"two different header names that give one Go identifier (one list)", []string{"X-API-Key", "X-APIKey"}, nil, nil},
+		{"two different header names that give one Go identifier (two methods)", nil, []string{"X-Trace-ID"}, []string{"Trace-ID"}},
+		{"one header spelled in two letter cases", []string{"X-Api-Key"}, []string{"x-api-key"}, nil},
 	} {
 		in, out := cMessage("Req"), cMessage("Resp")
 		m1 := cMethod("GetItem", in, out, map[string]Val{"@GetMethodHeaders": hl("mh1", sc.method1...)})
